@@ -428,6 +428,9 @@ func (e *Env) field(base *Val, name string) *Val {
 			}
 			np.Elem = stt.Field(i).Type()
 			cur = c.loadNoWf(e.st, &np)
+			if c.quant == 0 {
+				c.wfRefs(e.st, cur)
+			}
 			continue
 		}
 		if cur.Fs == nil || i >= len(cur.Fs) {
